@@ -100,7 +100,7 @@ fn c06_auth() {
     let addr = *reg.address();
     let other_addr = *base(1, perms.clone(), 8).address();
     let signer = [1u8, 2, 3][choice(3)]; // owner, listed writer, stranger
-    let sig_kind = choice(3); // genuine, signed by another key, genuine but for another register's address
+    let sig_kind = choice(4); // genuine, signed by another key, genuine but for another register's address, genuine but for the same entry under other children
     let mut crdt = RegisterCrdt::new(addr);
     let (_h, node) = { let (h, _a, n) = crdt.write(b"entry".to_vec(), &BTreeSet::new()).unwrap(); (h, n) };
     let op = match sig_kind {
@@ -112,10 +112,20 @@ fn c06_auth() {
             o.signature = forged.signature;
             o
         }
-        _ => RegisterOp::new(other_addr, node, &sk(signer)),
+        2 => RegisterOp::new(other_addr, node, &sk(signer)),
+        _ => {
+            // the signer's genuine signature over this entry written on no children, attached to the same entry
+            // re-parented onto an existing node: what the signature covers must include the causal parents
+            let mut c2 = RegisterCrdt::new(addr);
+            let (hp, _a, _parent) = c2.write(b"parent".to_vec(), &BTreeSet::new()).unwrap();
+            let (_h2, _a2, reparented) = c2.write(b"entry".to_vec(), &[hp].into_iter().collect()).unwrap();
+            let mut o = RegisterOp::new(addr, reparented, &sk(signer));
+            o.signature = RegisterOp::new(addr, node, &sk(signer)).signature;
+            o
+        }
     };
     let via_merge = choice(2) == 1;
-    note(format!("open={open} signer={} signature={} via_merge={via_merge}", ["owner", "writer", "stranger"][[1u8, 2, 3].iter().position(|x| *x == signer).unwrap()], ["genuine", "forged", "for another register"][sig_kind]));
+    note(format!("open={open} signer={} signature={} via_merge={via_merge}", ["owner", "writer", "stranger"][[1u8, 2, 3].iter().position(|x| *x == signer).unwrap()], ["genuine", "forged", "for another register", "genuine for other children"][sig_kind]));
     let accepted = if via_merge {
         // another replica that already contains the op (it did not go through add_op there)
         let other = SignedRegister::new(reg.base_register().clone(), reg.signature.clone(), [op.clone()].into_iter().collect());
@@ -136,6 +146,13 @@ fn c06_auth() {
         }
         if sig_kind == 2 {
             check_bool("auth:op_for_another_register_rejected[op_address_never_compared]", false);
+        }
+        if sig_kind == 3 {
+            if open {
+                check_bool("auth:forged_signature_rejected[open_register_never_checks_signatures]", false);
+            } else {
+                check_bool("auth:signature_covers_the_causal_parents", false);
+            }
         }
     } else {
         cover("rejected");
